@@ -26,7 +26,7 @@ macro_rules! prop {
 }
 
 fn registry() -> Vec<PropDef> {
-    vec![prop!("C14", c14)]
+    vec![prop!("C14", c14), prop!("C15", c15), prop!("C18", c18)]
 }
 
 fn main() {
